@@ -97,9 +97,17 @@ PROPS: Dict[str, Dict[str, Any]] = {
             "quick_n": 10000, "thorough_n": 300000, "fields": ["out", "trace"]},
     "C14": {"theorems": ["C14_root", "C14_list_later_stage", "scalarStep_prov", "seqStep_prov", "ntupleStep_prov",
                          "mapStep_prov", "recordStep_prov", "unionStep_prov", "maybeStep_prov", "ItemsRun.sound",
-                         "recLoop_to_run", "C05_union_invalid_inv"],
-            "modules": ["KodaModel.Properties.C14", "KodaModel.Properties.C03", "KodaModel.Properties.C04",
-                        "KodaModel.Properties.C05"],
+                         "recLoop_to_run", "C05_union_invalid_inv",
+                         "C14_everywhere", "C14_node_of_sourced", "seqStep_children", "ntupleStep_children",
+                         "mapStep_children", "recordStep_children", "unionStep_children"],
+            "modules": ["KodaModel.Properties.C14", "KodaModel.Properties.C14Tree", "KodaModel.Properties.C03",
+                        "KodaModel.Properties.C04", "KodaModel.Properties.C05"],
+            "level_note": "C14_root: for every tree, input, mode and fuel the root of a returned error names the responsible "
+                          "validator (transparent wrappers name what they wrap) and early errors hold the caller's object; "
+                          "C14_everywhere (whole tree): every node at any depth of any returned error tree was itself returned "
+                          "by a validator for some value, or is the missing-key leaf of a record validator - so C14_root holds "
+                          "of every node (C14_node_of_sourced); which later-stage value a node holds is stated per step "
+                          "(*_prov, C14_list_later_stage) and decided on the real code by the provenance oracle",
             "stream": "core", "opts": {"salt": "c14", "async_rate": 0.1},
             "quick_n": 10000, "thorough_n": 300000, "fields": ["out"]},
     "C17": {"theorems": ["C17_tree_partial", "C17_scalar_tree", "C17_union_fixed_partial", "C17_optional_fixed",
